@@ -495,6 +495,10 @@ func orNil(t types.Type) types.Type {
 func (sc *SpecCtx) index(x *SX, base, idx Val) Val {
 	vc := sc.vc
 	i := vc.toInt(idx)
+	if sc.hp == nil && !strings.Contains(i.S, "q_") && !strings.Contains(i.S, "p!") {
+		// ground compound index: name it so that quantified facts instantiate at it
+		i = vc.nameInt("sx", i)
+	}
 	switch u := vc.under(base.Ty).(type) {
 	case *types.Slice:
 		comp, srt := vc.elemComp(u.Elem())
